@@ -92,7 +92,9 @@ class MatlabDefCompiler:
         return name
 
     def generate_field(self, top_field: str, name: str, value: Any) -> str:
-        name = name.replace(f"{top_field}_", "", 1)  # strip top_field from fieldname
+        # strip a leading top_field prefix from fieldname (never text inside the name)
+        if name.startswith(f"{top_field}_"):
+            name = name[len(top_field) + 1 :]
         name = self.sanitize_name(name)
         return f"{self.struct_name}.{top_field}.{name} = {value};\n"
 
@@ -119,7 +121,8 @@ class MatlabDefCompiler:
         return self.generate_field("MID", self.sanitize_name(mid.name), mid.value)
 
     def generate_msg_type_id(self, mt: MT) -> str:
-        return self.generate_field("MT", self.sanitize_name(mt.name), mt.value)
+        # Same fieldname as RTMA.MDF.<name>: the _by_MT loop indexes RTMA.MDF with it
+        return f"{self.struct_name}.MT.{self.sanitize_name(mt.name)} = {mt.value};\n"
 
     def generate_type_alias(self, td: TypeAlias) -> str:
         name = self.sanitize_name(td.name)
